@@ -191,6 +191,27 @@ func checkHeader(h refHeader, variant int, tag string) {
 			r.Violation("header.SetPID:value", fmt.Sprintf("SetPID(%#x) -> high %#x low %#x", pid, lh3.PIDHigh, lh3.PIDLow), cs)
 		}
 		r.Eval(2)
+		// the other accessors: a header assigned through the setters encodes to the same bytes,
+		// the getters of the decoded header give the decoded fields
+		lh4 := libHeader(refHeader{Command: h.Command, Status: h.Status, PIDHigh: ^h.PIDHigh, Sec: h.Sec, Reserved: h.Reserved, TID: ^h.TID, PIDLow: ^h.PIDLow, UID: ^h.UID, MID: ^h.MID}, variant)
+		lh4.SetFlags(h.Flags)
+		lh4.SetFlags2(h.Flags2)
+		lh4.SetMID(h.MID)
+		lh4.SetTID(h.TID)
+		lh4.SetUID(h.UID)
+		lh4.SetPID(pid)
+		g4, err4 := lh4.Marshal()
+		r.Eval(1)
+		if err4 != nil || !bytes.Equal(g4, want) {
+			r.Violation("header.setters:layout", fmt.Sprintf("a header assigned through SetFlags/SetFlags2/SetMID/SetTID/SetUID/SetPID encodes as %x, want %x", g4, want), cs)
+		}
+		if lh2.GetMID() != h.MID || lh2.GetTID() != h.TID || lh2.GetUID() != h.UID {
+			r.Violation("header.getters:value", fmt.Sprintf("GetMID/GetTID/GetUID = %#x %#x %#x, decoded fields %#x %#x %#x", lh2.GetMID(), lh2.GetTID(), lh2.GetUID(), h.MID, h.TID, h.UID), cs)
+		}
+		if lh2.IsResponse() != (h.Flags&0x80 != 0) || lh2.IsRequest() == lh2.IsResponse() {
+			r.Violation("header.IsResponse:value", fmt.Sprintf("flags %#02x: IsResponse=%v IsRequest=%v", h.Flags, lh2.IsResponse(), lh2.IsRequest()), cs)
+		}
+		r.Eval(2)
 	})
 	if p {
 		r.Violation("header:panic:"+mon.PanicClass(pv), fmt.Sprintf("%v at %s", pv, mon.TopLibFrame(st)), cs)
